@@ -199,6 +199,10 @@ def check_decoded(ctx, entry, t, sig):
         finish(guarded(lambda: URL.build(scheme="http", host="h", user=t)), lambda u: [("user", B if t else None, pct_decode_bytes(u.raw_user) if u.raw_user is not None else None)])
     elif entry == "build.password":
         finish(guarded(lambda: URL.build(scheme="http", host="h", user="u", password=t)), lambda u: [("password", B, pct_decode_bytes(u.raw_password) if u.raw_password is not None else None)])
+    elif entry == "build.password_nouser":
+        finish(guarded(lambda: URL.build(scheme="http", host="h", password=t)), lambda u: [("password", B, pct_decode_bytes(u.raw_password) if u.raw_password is not None else None), ("user", None, u.raw_user)])
+    elif entry == "build.password_emptyuser":
+        finish(guarded(lambda: URL.build(scheme="http", host="h", user="", password=t)), lambda u: [("password", B, pct_decode_bytes(u.raw_password) if u.raw_password is not None else None)])
     elif entry == "with_user":
         finish(guarded(lambda: base.with_user(t)), lambda u: [("user", B if t else None, pct_decode_bytes(u.raw_user) if u.raw_user is not None else None), ("password_kept", "p", u.raw_password)])
     elif entry == "with_password":
@@ -280,7 +284,7 @@ def check_decoded(ctx, entry, t, sig):
         raise AssertionError(entry)
 
 
-DECODED_ENTRIES = ["build.user", "build.password", "with_user", "with_password", "with_fragment", "build.fragment", "with_path", "build.path", "with_path_rel",
+DECODED_ENTRIES = ["build.user", "build.password", "build.password_nouser", "build.password_emptyuser", "with_user", "with_password", "with_fragment", "build.fragment", "with_path", "build.path", "with_path_rel",
                    "build.path_noauth", "with_name", "div", "joinpath", "div_rel", "with_query_str", "build.query_string", "extend_query_str", "with_query_dict",
                    "with_query_seq", "with_query_mdict", "build.query", "update_query_dict"]
 
@@ -338,7 +342,10 @@ def run(ctx):
             check_join(ctx, c["base"], c["ref"], ("replay",))
         return
     if ctx.part == "kernel":
+        from ..gen import ALIAS_CHARS
+
         units = [("esc", "%%%02X" % b, b) for b in range(256)] + [("esc-lower", "%%%02x" % b, b) for b in range(256)] + [("lit", chr(b), b) for b in range(128)]
+        units += [("alias", "%" + a + a, ord(a) & 0xFF) for a in ALIAS_CHARS] + [("alias1", "%4" + a, ord(a) & 0xFF) for a in ALIAS_CHARS[::3]]
         i = 0
         for kind, unit, b in units:
             i += 1
